@@ -117,15 +117,11 @@ impl Envelope {
     /// assert!(document_root.confirm_contains_set(&target_set, &proof));
     /// ```
     pub fn proof_contains_set(&self, target: &HashSet<Digest, RandomState>) -> Option<Envelope> {
-        let mut interior = HashSet::new();
-        let reveal_set = self.reveal_set_of_set(target, &mut interior);
+        let reveal_set = self.reveal_set_of_set(target);
         if !target.is_subset(&reveal_set) {
             return None;
         }
-        // A target that contains another target lies on the path to that
-        // target and must stay revealed; only the other targets are elided.
-        let elidable: HashSet<Digest> = target.difference(&interior).cloned().collect();
-        Some(self.elide_revealing_set(&reveal_set).elide_removing_set(&elidable))
+        Some(self.revealing_paths_to(target))
     }
 
     /// Creates a proof that this envelope includes the single target element.
@@ -259,10 +255,45 @@ impl Envelope {
     /// Builds a set of all digests needed to reveal the target set.
     ///
     /// This collects all digests in the path from the envelope's root to each target element.
-    fn reveal_set_of_set(&self, target: &HashSet<Digest>, interior: &mut HashSet<Digest>) -> HashSet<Digest> {
+    fn reveal_set_of_set(&self, target: &HashSet<Digest>) -> HashSet<Digest> {
         let mut result = HashSet::new();
-        self.reveal_sets(target, &HashSet::new(), &mut result, interior);
+        self.reveal_sets(target, &HashSet::new(), &mut result);
         result
+    }
+
+    /// Builds the proof proper, position by position.
+    ///
+    /// An element is kept only where a target lies strictly beneath it; every other element -
+    /// a target with no target beneath it, and anything off the paths to the targets, even
+    /// when it shares its digest with an element on such a path (an encrypted, compressed or
+    /// partly elided copy) - is replaced by its digest.
+    fn revealing_paths_to(&self, target: &HashSet<Digest>) -> Self {
+        if !self.has_target_beneath(target) {
+            return self.elide();
+        }
+        match self.case() {
+            EnvelopeCase::Node { subject, assertions, .. } => Self::new_with_unchecked_assertions(
+                subject.revealing_paths_to(target),
+                assertions.iter().map(|a| a.revealing_paths_to(target)).collect(),
+            ),
+            EnvelopeCase::Wrapped { envelope, .. } => Self::new_wrapped(envelope.revealing_paths_to(target)),
+            EnvelopeCase::Assertion(assertion) => Self::new_assertion(
+                assertion.predicate().revealing_paths_to(target),
+                assertion.object().revealing_paths_to(target),
+            ),
+            _ => self.elide(),
+        }
+    }
+
+    /// Whether some element strictly beneath this one is a target.
+    fn has_target_beneath(&self, target: &HashSet<Digest>) -> bool {
+        let hit = |e: &Self| target.contains(&e.digest()) || e.has_target_beneath(target);
+        match self.case() {
+            EnvelopeCase::Node { subject, assertions, .. } => hit(subject) || assertions.iter().any(hit),
+            EnvelopeCase::Wrapped { envelope, .. } => hit(envelope),
+            EnvelopeCase::Assertion(assertion) => hit(&assertion.predicate()) || hit(&assertion.object()),
+            _ => false,
+        }
     }
 
     /// Checks if this envelope contains all elements in the target set.
@@ -277,12 +308,7 @@ impl Envelope {
     /// Recursively traverses the envelope to collect all digests needed to reveal the target set.
     ///
     /// Builds the set of digests forming the path from the root to each target element.
-    fn reveal_sets(&self, target: &HashSet<Digest>, current: &HashSet<Digest>, result: &mut HashSet<Digest>, interior: &mut HashSet<Digest>) {
-        if target.contains(&self.digest()) {
-            // everything strictly above a target is interior to the proof
-            interior.extend(current.iter().cloned());
-        }
-
+    fn reveal_sets(&self, target: &HashSet<Digest>, current: &HashSet<Digest>, result: &mut HashSet<Digest>) {
         let mut current = current.clone();
         current.insert(self.digest().into_owned());
 
@@ -292,17 +318,17 @@ impl Envelope {
 
         match self.case() {
             EnvelopeCase::Node { subject, assertions, .. } => {
-                subject.reveal_sets(target, &current, result, interior);
+                subject.reveal_sets(target, &current, result);
                 for assertion in assertions {
-                    assertion.reveal_sets(target, &current, result, interior);
+                    assertion.reveal_sets(target, &current, result);
                 }
             }
             EnvelopeCase::Wrapped { envelope, .. } => {
-                envelope.reveal_sets(target, &current, result, interior);
+                envelope.reveal_sets(target, &current, result);
             }
             EnvelopeCase::Assertion(assertion) => {
-                assertion.predicate().reveal_sets(target, &current, result, interior);
-                assertion.object().reveal_sets(target, &current, result, interior);
+                assertion.predicate().reveal_sets(target, &current, result);
+                assertion.object().reveal_sets(target, &current, result);
             }
             _ => {}
         }
